@@ -1,5 +1,5 @@
 #!/usr/bin/env python3
-"""Regenerates /verif/MANIFEST.json from the table below (kept next to the rules so it stays current)."""
+"""OUTDATED: MANIFEST.json is maintained by hand since the fifth pass (texts were extended there); do not regenerate it from this table without merging the texts back first."""
 import json
 import os
 
